@@ -13,6 +13,9 @@ PRELUDE = r'''
 #include "vs_common.h"
 int vs_exc; bool g_hit_end;
 /* ghost: the parser holds bytes of a response (fed since the last reset); how often it was reset / the connection released */
+/* ghost: the connection still holds the entry of the request being completed (it must be dropped BEFORE the connection is released: the
+   release callback hands the connection to the next queued request, whose entry a later reset would destroy) */
+bool g_entry_live;
 bool g_parser_dirty; size_t g_resets, g_released, g_resolved, g_rejected, g_timer_released, g_parse_done;
 struct vs_rparser { struct vs_opaque response; };
 struct vs_opaque vs_timer_slot;          /* the TimerPool::Entry a request's timer pointer refers to */
@@ -37,6 +40,7 @@ static inline void vs_on_done(const struct vs_opaque *f)
 {
     (void)f;
     __CPROVER_assert(!g_parser_dirty, "C04 (client): a connection is handed back to the pool only with its response parser reset");
+    __CPROVER_assert(!g_entry_live, "C15: a connection is handed back to the pool only after the entry of the completed request was dropped (the next request installs its own)");
     g_released++;
 }
 '''
@@ -54,7 +58,7 @@ STUBS = {
     'operator->|std::__shared_ptr_access<Pistache::TimerPool::Entry, __gnu_cxx::_S_atomic, false, false>': {'expr': '(&vs_timer_slot)'},
     'std::unique_ptr<Pistache::Http::Experimental::Connection::RequestEntry>::operator bool': {'expr': '(($this)->has)'},
     'operator->|std::unique_ptr<Pistache::Http::Experimental::Connection::RequestEntry>': {'expr': '(&($0).v)'},
-    'std::unique_ptr<Pistache::Http::Experimental::Connection::RequestEntry>::reset': {'expr': '((void)(($this)->has = 0))'},
+    'std::unique_ptr<Pistache::Http::Experimental::Connection::RequestEntry>::reset': {'expr': '((void)(($this)->has = 0), (void)(g_entry_live = 0))'},
     'operator()|std::function<void ()>': {'expr': 'vs_on_done(&($0))'},
 }
 THROWING = ['vs_parser_parse']
@@ -70,14 +74,15 @@ OPAQUE_ANY = True
 EXTRA_DECLS_AFTER_RECORD = {}
 FUNCTIONS = [
     {'q': 'Pistache::Http::Experimental::Connection::handleError', 'dflt_ref': 'malloc', 'contract': """
-        requires FRESH(this, sizeof(*this)) && vs_exc == 0 && g_released <= 1
+        requires FRESH(this, sizeof(*this)) && vs_exc == 0 && g_released <= 1 && IFF(g_entry_live, this->requestEntry.has)
         requires g_resolved <= 1 && g_rejected <= 1
-        assigns vs_exc, g_parser_dirty, g_resets, g_released, g_resolved, g_rejected, g_timer_released, this->requestEntry, this->parser, this->timerPool_, vs_timer_slot
+        assigns vs_exc, g_entry_live, g_parser_dirty, g_resets, g_released, g_resolved, g_rejected, g_timer_released, this->requestEntry, this->parser, this->timerPool_, vs_timer_slot
         # C15: the outstanding request (if any) is rejected, exactly once, never fulfilled; without one nothing is settled; the entry is dropped
         ensures g_resolved == OLD(g_resolved) && g_rejected <= OLD(g_rejected) + 1 && (!OLD(this->requestEntry.has) ==> g_rejected == OLD(g_rejected))
         ensures (vs_exc == 0 && OLD(this->requestEntry.has)) ==> g_rejected == OLD(g_rejected) + 1
         # a rejected request is no longer outstanding (so it cannot be settled a second time), and no entry appears from nowhere
         ensures (g_rejected == OLD(g_rejected) + 1 ==> !this->requestEntry.has) && (!OLD(this->requestEntry.has) ==> !this->requestEntry.has)
+        ensures IFF(g_entry_live, this->requestEntry.has)
         # C04 (client): the failed response does not stay in the parser -- it is reset, and only then may the connection be released
         ensures !g_parser_dirty && g_resets == OLD(g_resets) + 1
         ensures g_released <= OLD(g_released) + 1 && (!OLD(this->requestEntry.has) ==> g_released == OLD(g_released))
@@ -85,9 +90,9 @@ FUNCTIONS = [
         # the entry is dropped before the callback runs: a connection is released at most once per request, whatever the callback throws
         ensures g_released > OLD(g_released) ==> !this->requestEntry.has"""},
     {'q': 'Pistache::Http::Experimental::Connection::handleResponsePacket', 'dflt_ref': 'malloc', 'contract': """
-        requires FRESH(this, sizeof(*this)) && vs_exc == 0 && g_released == 0
+        requires FRESH(this, sizeof(*this)) && vs_exc == 0 && g_released == 0 && IFF(g_entry_live, this->requestEntry.has)
         requires g_resolved == 0 && g_rejected == 0 && g_timer_released == 0 && g_parse_done == 0
-        assigns vs_exc, g_parser_dirty, g_resets, g_released, g_resolved, g_rejected, g_timer_released, g_parse_done, this->requestEntry, this->parser, this->timerPool_, vs_timer_slot
+        assigns vs_exc, g_entry_live, g_parser_dirty, g_resets, g_released, g_resolved, g_rejected, g_timer_released, g_parse_done, this->requestEntry, this->parser, this->timerPool_, vs_timer_slot
         # C15: the promise of the outstanding request is settled at most once by a packet: fulfilled only when the parser reported the
         # response complete (and then with this connection's parsed response), rejected only on a parser error / oversize; a packet
         # arriving with no outstanding request settles nothing; a settled request is no longer outstanding
@@ -104,8 +109,8 @@ FUNCTIONS = [
 DEVIRT = {('Pistache_Http_Experimental_Connection_handleError', 'reset'): 'vs_parser_reset', ('Pistache_Http_Experimental_Connection_handleResponsePacket', 'reset'): 'vs_parser_reset'}
 FUNCTIONS += [
     {'q': 'Pistache::Http::Experimental::Connection::handleTimeout', 'dflt_ref': 'malloc', 'contract': """
-        requires FRESH(this, sizeof(*this)) && vs_exc == 0 && g_released == 0 && g_resolved == 0 && g_rejected == 0 && g_timer_released == 0
-        assigns vs_exc, g_parser_dirty, g_resets, g_released, g_resolved, g_rejected, g_timer_released, this->requestEntry, this->parser, this->timerPool_, vs_timer_slot
+        requires FRESH(this, sizeof(*this)) && vs_exc == 0 && g_released == 0 && g_resolved == 0 && g_rejected == 0 && g_timer_released == 0 && IFF(g_entry_live, this->requestEntry.has)
+        assigns vs_exc, g_entry_live, g_parser_dirty, g_resets, g_released, g_resolved, g_rejected, g_timer_released, this->requestEntry, this->parser, this->timerPool_, vs_timer_slot
         # C15: a time-out rejects the outstanding request, exactly once, never fulfils it; its timer goes back to the pool once; the entry is
         # dropped before the connection is released (at most one release); without an outstanding request nothing happens
         ensures g_resolved == 0 && g_rejected <= 1 && g_timer_released <= 1 && (!OLD(this->requestEntry.has) ==> (g_rejected == 0 && g_timer_released == 0))
